@@ -105,6 +105,18 @@ class _Subst(ast.NodeTransformer):
         return ast.Constant(value="<fstr>")
 
 
+class _DictIter(ast.NodeTransformer):
+    """`d[k] for k in d`  is  `v for k, v in d.items()`:  D[%each(D)]  ->  %each[1](D.items())"""
+
+    def visit_Subscript(self, node):
+        self.generic_visit(node)
+        sl = node.slice
+        if isinstance(sl, ast.Call) and isinstance(sl.func, ast.Name) and sl.func.id == "%each" and len(sl.args) == 1 and ast.dump(sl.args[0]) == ast.dump(node.value):
+            items = ast.Call(func=ast.Attribute(value=node.value, attr="items", ctx=ast.Load()), args=[], keywords=[])
+            return ast.Call(func=ast.Name(id="%each[1]", ctx=ast.Load()), args=[items], keywords=[])
+        return node
+
+
 def origin(m: Module, fn: ast.AST, expr: ast.AST, depth: int = 8) -> ast.AST:
     params = set()
     cur = fn
@@ -127,6 +139,7 @@ def origin(m: Module, fn: ast.AST, expr: ast.AST, depth: int = 8) -> ast.AST:
             binds.setdefault(k, v)
         enc = m.enclosing_func(enc)
     tree = _Subst(params, binds, depth).visit(copy.deepcopy(expr))
+    tree = _DictIter().visit(tree)
     return ast.fix_missing_locations(tree)
 
 
